@@ -3,8 +3,11 @@ package props
 import (
 	"bytes"
 	"encoding/hex"
+	"encoding/json"
 	"fmt"
 	"os"
+	"os/exec"
+	"path/filepath"
 	"strconv"
 	"testing"
 	"time"
@@ -20,6 +23,7 @@ import (
 // C01 — Block execution is a deterministic function of prior state and block.
 
 type c01Case struct {
+	Child  bool        `json:"child,omitempty"` // also re-execute in another process
 	World  chain.World `json:"world"`
 	Blocks []BlockPlan `json:"blocks"`
 	OptsB  int         `json:"opts_b"`
@@ -117,6 +121,8 @@ func genC01(t *rapid.T) c01Case {
 		w.MaxGas = rapid.Int64Range(100000, 2000000).Draw(t, "maxgas")
 	}
 	cs := c01Case{World: w, OptsB: rapid.IntRange(0, len(c01OptsB)-1).Draw(t, "optsb")}
+	// one case in eight is also re-executed in another process (other GOMAXPROCS, time zone, home, locale)
+	cs.Child = rapid.IntRange(0, 7).Draw(t, "child") == 0
 	for b, nb := 0, rapid.IntRange(1, 4).Draw(t, "nblocks"); b < nb; b++ {
 		bp := BlockPlan{Dt: rapid.Int64Range(0, 400).Draw(t, "dt"), Proposer: rapid.IntRange(0, 2).Draw(t, "proposer")}
 		for n := rapid.IntRange(0, 6).Draw(t, "ntx"); n > 0; n-- {
@@ -190,7 +196,9 @@ func eventsSameMultiset(a, b []abci.Event) bool {
 
 // cmpBlockResults compares everything the property lists.
 func cmpBlockResults(bi int, a, b *abci.ResponseFinalizeBlock) (devs []Dev) {
-	add := func(key, f string, args ...interface{}) { devs = append(devs, Dev{Key: key, Msg: fmt.Sprintf(f, args...)}) }
+	add := func(key, f string, args ...interface{}) {
+		devs = append(devs, Dev{Key: key, Msg: fmt.Sprintf(f, args...)})
+	}
 	if !bytes.Equal(a.AppHash, b.AppHash) {
 		add("", "block %d: app hash %x vs %x", bi, a.AppHash, b.AppHash)
 	}
@@ -324,10 +332,125 @@ func runC01(cs c01Case) *Outcome {
 			break
 		}
 	}
+	if cs.Child && len(o.Devs) == 0 {
+		resC, err := replayInChild(cs.World, c01OptsB[cs.OptsB%len(c01OptsB)], recs)
+		if err != nil {
+			o.Excluded = "child process could not be run: " + truncS(err.Error(), 120)
+			return o
+		}
+		o.label("re-executed-in-child-process")
+		if len(resC) != len(recs) {
+			o.dev("", "child process executed %d of %d blocks", len(resC), len(recs))
+			return o
+		}
+		for bi := range recs {
+			o.Devs = append(o.Devs, cmpBlockResults(bi, recs[bi].Res, resC[bi])...)
+		}
+	}
 	return o
 }
 
 func TestC01(t *testing.T) { runProp(t, "C01", genC01, runC01) }
+
+// ----------------------------------------------------------------------------
+// re-execution in another process
+
+type c01ChildJob struct {
+	World  chain.World    `json:"world"`
+	Opts   chain.NodeOpts `json:"opts"`
+	Blocks []c01ChildBlk  `json:"blocks"`
+}
+
+type c01ChildBlk struct {
+	Dt       int64    `json:"dt"`
+	Proposer int      `json:"proposer"`
+	Txs      []string `json:"txs"`
+}
+
+func replayInChild(w chain.World, opts chain.NodeOpts, recs []blockRecord) ([]*abci.ResponseFinalizeBlock, error) {
+	job := c01ChildJob{World: w, Opts: opts}
+	job.Opts.DB = nil
+	for _, br := range recs {
+		b := c01ChildBlk{Dt: br.Plan.Dt, Proposer: br.Plan.Proposer}
+		for _, tr := range br.Txs {
+			b.Txs = append(b.Txs, hex.EncodeToString(tr.Built.Bytes))
+		}
+		job.Blocks = append(job.Blocks, b)
+	}
+	dir, err := os.MkdirTemp("", "verif-c01-child-")
+	if err != nil {
+		return nil, err
+	}
+	defer os.RemoveAll(dir)
+	in, out := filepath.Join(dir, "job.json"), filepath.Join(dir, "out.json")
+	bz, _ := json.Marshal(job)
+	if err := os.WriteFile(in, bz, 0o644); err != nil {
+		return nil, err
+	}
+	cmd := exec.Command(os.Args[0], "-test.run", "^TestC01Child$", "-test.count=1")
+	cmd.Dir = dir
+	cmd.Env = []string{"VERIF_C01_CHILD=" + in, "VERIF_C01_CHILD_OUT=" + out, "GOMAXPROCS=" + []string{"1", "3"}[len(recs)%2], "TZ=Pacific/Kiritimati", "HOME=" + dir, "LANG=C", "LC_ALL=C", "PATH=" + os.Getenv("PATH"), "VERIF_KNOWN=" + os.Getenv("VERIF_KNOWN")}
+	if msg, err := cmd.CombinedOutput(); err != nil {
+		return nil, fmt.Errorf("%v: %s", err, truncS(string(msg), 300))
+	}
+	raw, err := os.ReadFile(out)
+	if err != nil {
+		return nil, err
+	}
+	var hexes []string
+	if err := json.Unmarshal(raw, &hexes); err != nil {
+		return nil, err
+	}
+	var res []*abci.ResponseFinalizeBlock
+	for _, h := range hexes {
+		b, _ := hex.DecodeString(h)
+		r := &abci.ResponseFinalizeBlock{}
+		if err := r.Unmarshal(b); err != nil {
+			return nil, err
+		}
+		res = append(res, r)
+	}
+	return res, nil
+}
+
+// TestC01Child is the body of the child process (it does nothing unless asked to).
+func TestC01Child(t *testing.T) {
+	in := os.Getenv("VERIF_C01_CHILD")
+	if in == "" {
+		t.Skip("only run as a child of TestC01")
+	}
+	bz, err := os.ReadFile(in)
+	if err != nil {
+		t.Fatal(err)
+	}
+	var job c01ChildJob
+	if err := json.Unmarshal(bz, &job); err != nil {
+		t.Fatal(err)
+	}
+	c, err := chain.NewStarted(job.World, job.Opts)
+	if err != nil {
+		t.Fatal(err)
+	}
+	defer c.Close()
+	var outs []string
+	for _, b := range job.Blocks {
+		var txs [][]byte
+		for _, h := range b.Txs {
+			x, _ := hex.DecodeString(h)
+			txs = append(txs, x)
+		}
+		res, err := c.RunBlock(chain.Block{Dt: b.Dt, Proposer: b.Proposer, Txs: txs})
+		if err != nil {
+			break
+		}
+		rb, _ := res.Marshal()
+		outs = append(outs, hex.EncodeToString(rb))
+	}
+	ob, _ := json.Marshal(outs)
+	if err := os.WriteFile(os.Getenv("VERIF_C01_CHILD_OUT"), ob, 0o644); err != nil {
+		t.Fatal(err)
+	}
+}
 
 // ----------------------------------------------------------------------------
 // wall-clock straddle: the same history executed before and after a vesting end time
